@@ -428,6 +428,10 @@ def load_known_findings():
 
 # ---------------------------------------------------------------- run / evidence
 
+class WallClock(Exception):
+    """raised by the wall-clock watchdog (engine.cli); never swallowed by section guards"""
+
+
 class Run:
     """Collects everything a property check produces and writes evidence."""
 
@@ -446,6 +450,8 @@ class Run:
         self.notes = []
         self.extra = {}
         self.bounded_notes = []
+        self.out_of_reach = []     # sections whose contracts could not be bound to the current code shape (bounded stand-in takes over)
+        self.oracle = None         # result of the property's bounded native oracle, when it ran
 
     def budget(self):
         return THOROUGH_BUDGET_S if self.tier == "thorough" else QUICK_BUDGET_S
@@ -523,6 +529,22 @@ class Run:
             "wall_s": round(time.time() - self.t0, 3),
             "violations": len(self.violations),
         }
+        if self.out_of_reach:
+            ev["coverage"]["out_of_reach"] = self.out_of_reach
+        if self.oracle is not None:
+            orc = self.oracle
+            ev["coverage"]["bounded_native_oracle"] = {"cases": orc.get("cases"), "failures": len(orc.get("failures") or []), "bound": orc.get("bound"),
+                                                      "seconds": orc.get("seconds"), "why": orc.get("why")}
+        if level == "exploration":
+            orc = self.oracle or {}
+            ev["coverage"].update({
+                "evaluations": int(orc.get("cases") or 0), "distinct_nontrivial": int(orc.get("distinct") or orc.get("cases") or 0),
+                "rule": "bounded native stand-in (contracts out of reach for this code shape): " + str(orc.get("bound") or ""),
+                "explanation": "the deductive check could not bind its contracts to (part of) the current code, see out_of_reach; the statement-level "
+                               "native oracle of this property ran instead - a bounded exploration, NOT a proof; obligations/discharged count only "
+                               "the sections that still bound",
+                "exhaustive": False})
+            ev["coverage"]["samples"] = (orc.get("samples") or [])[:3] + ev["coverage"]["samples"]
         ev["coverage"].update(self.extra)
         d = os.path.join(OUT, "evidence")
         os.makedirs(d, exist_ok=True)
